@@ -257,7 +257,62 @@ func (d *driver) runMsmHistory(w emitter, k int, c *msmCase) {
 	}
 }
 
+// a history of REJECTED calls (length mismatch through every entry point), then well-formed ones: errors must leave nothing behind
+func (d *driver) runMsmMismatchHistory(w emitter, k int, c *msmCase) {
+	p := newPrg("msm-mismatch", d.seed, k)
+	cfg := getConf()
+	for rep := 0; rep < c.N; rep++ {
+		func() {
+			defer func() { recover() }()
+			pts := msmPoints("srs", 5+rep, p)
+			scs := toFr(msmScalars("rnd", 4+rep, 0, p), true)
+			var res banderwagon.Element
+			res.MultiExp(pts, scs, banderwagon.MultiExpConfig{NbTasks: c.Tasks, ScalarsMont: true})
+			ipa.MultiScalar(cfg.SRS[:6+rep], scs)
+			affs := make([]bandersnatch.PointAffine, len(pts))
+			for i := range pts {
+				affs[i] = affineOf(&pts[i])
+			}
+			bandersnatch.MultiExpAffine(affs, scs, bandersnatch.MultiExpConfig{NbTasks: c.Tasks, ScalarsMont: true})
+		}()
+	}
+	for _, n := range []int{5, 64} {
+		pts := msmPoints("srs", n, p)
+		vals := msmScalars("rnd", n, 0, p)
+		scs := toFr(vals, true)
+		xy := make([][][]int, len(pts))
+		for i := range pts {
+			xy[i] = affXY(&pts[i])
+		}
+		e := ev{"ev": "msm", "k": k, "kind": "api", "n": n, "tasks": c.Tasks, "mont": true, "small": 0, "pcls": "after-mismatches", "scls": "rnd",
+			"pts": xy, "scalars": limbsList(vals), "numcpu": runtime.NumCPU()}
+		fin := watchdog(func() {
+			defer func() {
+				if r := recover(); r != nil {
+					e["panic"] = fmt.Sprint(r)
+				}
+			}()
+			var res banderwagon.Element
+			res.SetIdentity()
+			r, err := res.MultiExp(pts, scs, banderwagon.MultiExpConfig{NbTasks: c.Tasks, ScalarsMont: true})
+			e["err"] = err != nil
+			if err == nil {
+				e["out"] = coords(r)
+			}
+		}, 60*time.Second)
+		e["finished"] = fin
+		w.emit(e)
+		if !fin {
+			return // the process is stuck behind whatever the rejected calls left: no further call would return
+		}
+	}
+}
+
 func (d *driver) runMsmCase(w emitter, k int, c *msmCase) {
+	if c.Kind == "mismatchhist" {
+		d.runMsmMismatchHistory(w, k, c)
+		return
+	}
 	if c.Kind == "history" {
 		d.runMsmHistory(w, k, c)
 		return
